@@ -358,5 +358,8 @@ class StochasticAndFilterDuplicatesSearcher(StochasticSearcher):
         k = "restrict_configurations"
         if k in state:
             self._restrict_configurations = state[k]
+            # Not part of the state: Empty between calls of ``get_config``
+            self._rc_returned_pos = set()
         else:
             self._restrict_configurations = None
+            self._rc_returned_pos = None
